@@ -725,3 +725,1304 @@ Proof.
   rewrite EA. cbn [map app] in Q. rewrite Ec in Q.
   rewrite (main_loop_spec pv sh); auto; try lia; rewrite ?Ep, <- ?Q; auto.
 Qed.
+
+(** * 6. The item-level merge on ordered, aligned item sequences *)
+Lemma b_loop_nil_new k v cs : b_loop [] (CNew k v :: cs) = CSet k v :: b_loop [] cs.
+Proof. cbn [b_loop b_flush]. destruct (b_flush cs). reflexivity. Qed.
+Lemma b_loop_orph_new k ps k' v cs :
+  b_loop (POrph k :: ps) (CNew k' v :: cs) =
+    match bcmp k k' with
+    | Gt => CSet k' v :: b_loop (POrph k :: ps) cs
+    | Lt => CDel k :: b_loop ps (CNew k' v :: cs)
+    | Eq => CSet k' v :: b_loop ps cs
+    end.
+Proof.
+  cbn [b_loop b_orphan]. destruct (bcmp k k'); try reflexivity.
+  destruct (b_orphan k cs). reflexivity.
+Qed.
+Lemma b_loop_orph_shared k ps s cs :
+  b_loop (POrph k :: ps) (CShared s :: cs) = CDel k :: b_loop ps (CShared s :: cs).
+Proof. reflexivity. Qed.
+Lemma b_loop_orph_nil k ps : b_loop (POrph k :: ps) [] = CDel k :: b_loop ps [].
+Proof. reflexivity. Qed.
+Lemma b_loop_sh_new x ps k' v cs :
+  b_loop (PShared x :: ps) (CNew k' v :: cs) = CSet k' v :: b_loop (PShared x :: ps) cs.
+Proof. cbn [b_loop b_flush]. destruct (b_flush cs). reflexivity. Qed.
+Lemma b_loop_sh_shared x ps s cs : b_loop (PShared x :: ps) (CShared s :: cs) = b_loop ps cs.
+Proof. reflexivity. Qed.
+
+(** one representative key per item: a shared subtree stands for its least key *)
+Definition ck (c : citem) : bytes := match c with CNew k _ => k | CShared s => min_key s end.
+Definition pk (p : pitem) : bytes := match p with POrph k => k | PShared s => min_key s end.
+
+Definition out_spec (ps : list pitem) (cs : list citem) (out : list change) : Prop :=
+  ksorted (map ckey out) /\
+  (forall k v, In (CSet k v) out <-> In (CNew k v) cs) /\
+  (forall k, In (CDel k) out <-> In (POrph k) ps /\ ~ In k (map fst (cnews cs))).
+
+Lemma out_keys ps cs out x :
+  out_spec ps cs out -> In x (map ckey out) -> In x (map ck cs) \/ In x (map pk ps).
+Proof.
+  intros (_ & HS & HD) I. apply in_map_iff in I. destruct I as ([k v|k] & <- & I); cbn [ckey].
+  - left. apply HS in I. apply in_map_iff. exists (CNew k v). auto.
+  - right. apply HD in I. destruct I as [I _]. apply in_map_iff. exists (POrph k). auto.
+Qed.
+
+Lemma out_cons_sorted c ps cs out :
+  out_spec ps cs out ->
+  (forall x, In x (map ck cs) -> ckey c <b x) -> (forall x, In x (map pk ps) -> ckey c <b x) ->
+  ksorted (map ckey (c :: out)).
+Proof.
+  intros O Bc Bp. cbn [map ksorted]. split; [|apply O].
+  apply Forall_forall. intros x I. destruct (out_keys _ _ _ _ O I); auto.
+Qed.
+
+Lemma news_keys_ck a cs : In a (map fst (cnews cs)) -> In a (map ck cs).
+Proof.
+  intros I. apply in_map_iff in I. destruct I as ([k v] & <- & I). apply cnews_In in I.
+  apply in_map_iff. exists (CNew k v). auto.
+Qed.
+Lemma orph_keys_pk a ps : In (POrph a) ps -> In a (map pk ps).
+Proof. intros I. apply in_map_iff. exists (POrph a). auto. Qed.
+Lemma cshared_ck s cs : In s (cshared cs) -> In (min_key s) (map ck cs).
+Proof. intros I. apply cshared_In in I. apply in_map_iff. exists (CShared s). auto. Qed.
+Lemma pshared_pk s ps : In s (pshared ps) -> In (min_key s) (map pk ps).
+Proof. intros I. apply pshared_In in I. apply in_map_iff. exists (PShared s). auto. Qed.
+
+Lemma b_loop_props ps : forall cs,
+  ksorted (map ck cs) -> ksorted (map pk ps) -> pshared ps = cshared cs ->
+  out_spec ps cs (b_loop ps cs).
+Proof.
+  induction ps as [|p ps IHp].
+  - (* the previous tree is exhausted: only new leaves can remain *)
+    induction cs as [|[k v|s] cs IHc]; intros Sc Sp AL.
+    + cbn. repeat split; tauto.
+    + rewrite b_loop_nil_new. cbn [map ck] in Sc.
+      pose proof (IHc (ksorted_tail _ _ Sc) Sp AL) as O.
+      split; [|split].
+      * apply (out_cons_sorted _ _ _ _ O); [|intros x []].
+        intros x I. exact (ksorted_head _ _ _ Sc I).
+      * intros a b. destruct O as (_ & HS & _). cbn [In]. rewrite HS.
+        split; intros [E|I]; auto; left; congruence.
+      * intros a. destruct O as (_ & _ & HD). cbn [In]. rewrite HD.
+        split; [intros [E|[[] _]]; discriminate E|intros [[] _]].
+    + discriminate AL.
+  - destruct p as [k|x].
+    + (* an orphaned leaf of the previous tree *)
+      induction cs as [|[k' v|s] cs IHc]; intros Sc Sp AL; cbn [map pk] in Sp;
+        pose proof (ksorted_tail _ _ Sp) as Sp'.
+      * rewrite b_loop_orph_nil. pose proof (IHp [] Sc Sp' AL) as O.
+        split; [|split].
+        -- apply (out_cons_sorted _ _ _ _ O); [intros x []|].
+           intros x I. exact (ksorted_head _ _ _ Sp I).
+        -- intros a b. destruct O as (_ & HS & _). cbn [In]. rewrite HS.
+           split; [intros [E|I]; [discriminate E|exact I]|auto].
+        -- intros a. destruct O as (_ & _ & HD). cbn [In]. rewrite HD. cbn [cnews map In].
+           split.
+           ++ intros [E|[I _]]; [inversion E; subst a|]; (split; [|tauto]); [left; reflexivity|right; exact I].
+           ++ intros [[E|I] _]; [left; congruence|right; tauto].
+      * cbn [map ck] in Sc. pose proof (ksorted_tail _ _ Sc) as Sc'.
+        rewrite b_loop_orph_new. cbn [pshared cshared] in AL. bcases k k'.
+        -- (* same key: an update *)
+           subst k'. pose proof (IHp cs Sc' Sp' AL) as O.
+           split; [|split].
+           ++ apply (out_cons_sorted _ _ _ _ O); cbn [ckey]; intros x I.
+              ** exact (ksorted_head _ _ _ Sc I).
+              ** exact (ksorted_head _ _ _ Sp I).
+           ++ intros a b. destruct O as (_ & HS & _). cbn [In]. rewrite HS.
+              split; intros [E|I]; auto; left; congruence.
+           ++ intros a. destruct O as (_ & _ & HD). cbn [In cnews map fst]. rewrite HD.
+              split.
+              ** intros [E|[I N]]; [discriminate E|]. split; [right; exact I|].
+                 intros [<-|I2]; [|auto].
+                 pose proof (ksorted_head _ _ _ Sp (orph_keys_pk _ _ I)). border.
+              ** intros [[E|I] N]; [exfalso; apply N; left; congruence|].
+                 right. split; [exact I|]. tauto.
+        -- (* the orphan is smaller: a removal *)
+           pose proof (IHp (CNew k' v :: cs) Sc Sp' AL) as O.
+           assert (Bk : forall x, In x (map ck (CNew k' v :: cs)) -> k <b x).
+           { cbn [map ck In]. intros x [<-|I]; [exact E|].
+             pose proof (ksorted_head _ _ _ Sc I). border. }
+           split; [|split].
+           ++ apply (out_cons_sorted _ _ _ _ O); cbn [ckey]; [exact Bk|].
+              intros x I. exact (ksorted_head _ _ _ Sp I).
+           ++ intros a b. destruct O as (_ & HS & _). cbn [In]. rewrite HS.
+              split; [intros [E0|I]; [discriminate E0|exact I]|auto].
+           ++ intros a. destruct O as (_ & _ & HD). cbn [In]. rewrite HD.
+              split.
+              ** intros [E0|[I N]]; [|tauto]. inversion E0; subst a. split; [left; reflexivity|].
+                 intros I. apply news_keys_ck in I. pose proof (Bk _ I). border.
+              ** intros [[E0|I] N]; [left; congruence|tauto].
+        -- (* the new leaf is smaller: an insertion, the orphan stays *)
+           pose proof (IHc Sc' Sp AL) as O.
+           split; [|split].
+           ++ apply (out_cons_sorted _ _ _ _ O); cbn [ckey].
+              ** intros x I. exact (ksorted_head _ _ _ Sc I).
+              ** cbn [map pk In]. intros x [<-|I]; [exact E|].
+                 pose proof (ksorted_head _ _ _ Sp I). border.
+           ++ intros a b. destruct O as (_ & HS & _). cbn [In]. rewrite HS.
+              split; intros [E0|I]; auto; left; congruence.
+           ++ intros a. destruct O as (_ & _ & HD). cbn [In cnews map fst]. rewrite HD.
+              split.
+              ** intros [E0|[I N]]; [discriminate E0|]. split; [exact I|].
+                 intros [<-|I2]; [|auto]. destruct I as [I|I].
+                 --- inversion I; subst. border.
+                 --- pose proof (ksorted_head _ _ _ Sp (orph_keys_pk _ _ I)). border.
+              ** intros [I N]. right. split; [exact I|]. tauto.
+      * (* the current walk waits at a shared subtree: a removal *)
+        cbn [map ck] in Sc. rewrite b_loop_orph_shared.
+        cbn [pshared cshared] in AL.
+        pose proof (IHp (CShared s :: cs) Sc Sp' AL) as O.
+        assert (Ks : k <b min_key s).
+        { apply (ksorted_head _ _ _ Sp). apply pshared_pk. rewrite AL. left; reflexivity. }
+        assert (Bk : forall x, In x (map ck (CShared s :: cs)) -> k <b x).
+        { cbn [map ck In]. intros x [<-|I]; [exact Ks|].
+          pose proof (ksorted_head _ _ _ Sc I). border. }
+        split; [|split].
+        -- apply (out_cons_sorted _ _ _ _ O); cbn [ckey]; [exact Bk|].
+           intros x I. exact (ksorted_head _ _ _ Sp I).
+        -- intros a b. destruct O as (_ & HS & _). cbn [In]. rewrite HS.
+           split; [intros [E0|I]; [discriminate E0|exact I]|auto].
+        -- intros a. destruct O as (_ & _ & HD). cbn [In]. rewrite HD.
+           split.
+           ++ intros [E0|[I N]]; [|tauto]. inversion E0; subst a. split; [left; reflexivity|].
+              intros I. apply news_keys_ck in I. pose proof (Bk _ I). border.
+           ++ intros [[E0|I] N]; [left; congruence|tauto].
+    + (* the previous walk is at the current shared subtree *)
+      induction cs as [|[k' v|s] cs IHc]; intros Sc Sp AL; cbn [map pk] in Sp;
+        pose proof (ksorted_tail _ _ Sp) as Sp'.
+      * discriminate AL.
+      * cbn [map ck] in Sc. pose proof (ksorted_tail _ _ Sc) as Sc'.
+        rewrite b_loop_sh_new. cbn [cshared] in AL.
+        pose proof (IHc Sc' Sp AL) as O.
+        assert (Kx : k' <b min_key x).
+        { apply (ksorted_head _ _ _ Sc). apply cshared_ck. rewrite <- AL. left; reflexivity. }
+        assert (Bk : forall y, In y (map pk (PShared x :: ps)) -> k' <b y).
+        { cbn [map pk In]. intros y [<-|I]; [exact Kx|].
+          pose proof (ksorted_head _ _ _ Sp I). border. }
+        split; [|split].
+        -- apply (out_cons_sorted _ _ _ _ O); cbn [ckey]; [|exact Bk].
+           intros y I. exact (ksorted_head _ _ _ Sc I).
+        -- intros a b. destruct O as (_ & HS & _). cbn [In]. rewrite HS.
+           split; intros [E0|I]; auto; left; congruence.
+        -- intros a. destruct O as (_ & _ & HD). cbn [In cnews map fst]. rewrite HD.
+           split.
+           ++ intros [E0|[I N]]; [discriminate E0|]. split; [exact I|].
+              intros [<-|I2]; [|auto].
+              pose proof (Bk _ (orph_keys_pk _ _ I)). border.
+           ++ intros [I N]. right. split; [exact I|]. tauto.
+      * cbn [map ck] in Sc. pose proof (ksorted_tail _ _ Sc) as Sc'.
+        rewrite b_loop_sh_shared. cbn [pshared cshared] in AL.
+        apply cons_eq_inv in AL. destruct AL as [_ AL].
+        pose proof (IHp cs Sc' Sp' AL) as O. destruct O as (OS & HS & HD).
+        split; [exact OS|split].
+        -- intros a b. rewrite HS. cbn [In]. split; [auto|intros [E0|I]; [discriminate E0|exact I]].
+        -- intros a. rewrite HD. cbn [In cnews].
+           split; [intros [I N]; auto|intros [[E0|I] N]; [discriminate E0|auto]].
+Qed.
+
+(** * 7. Subtrees, and how the two walks line up *)
+Fixpoint subtree (s t : node) : Prop :=
+  s = t \/
+  match t with
+  | Leaf _ _ _ => False
+  | Inner _ _ _ _ l r => subtree s l \/ subtree s r
+  end.
+Definition osubtree (s : node) (o : option node) : Prop :=
+  match o with None => False | Some t => subtree s t end.
+
+(** versions never increase from a node to its children *)
+Fixpoint ver_mono (t : node) : Prop :=
+  match t with
+  | Leaf _ _ _ => True
+  | Inner _ _ _ m l r =>
+      ver (nmeta l) <= ver m /\ ver (nmeta r) <= ver m /\ ver_mono l /\ ver_mono r
+  end.
+Definition over_mono (t : option node) : Prop := match t with None => True | Some n => ver_mono n end.
+
+Lemma subtree_refl t : subtree t t.
+Proof. destruct t; left; reflexivity. Qed.
+
+Lemma subtree_elems s t p : subtree s t -> In p (elems s) -> In p (elems t).
+Proof.
+  induction t as [k v m|k h z m l IHl r IHr]; cbn [subtree]; intros [->|S] I; auto.
+  - destruct S.
+  - cbn [elems]. apply in_or_app. destruct S as [S|S]; [left|right]; auto.
+Qed.
+
+Lemma subtree_keys s t x : subtree s t -> In x (map fst (elems s)) -> In x (map fst (elems t)).
+Proof.
+  intros S I. apply in_map_iff in I. destruct I as (p & E & I). apply in_map_iff. exists p.
+  split; [exact E|]. eapply subtree_elems; eauto.
+Qed.
+
+Lemma subtree_nodes s t : subtree s t -> (nodes s <= nodes t)%nat.
+Proof.
+  induction t as [k v m|k h z m l IHl r IHr]; cbn [subtree]; intros [->|S]; auto.
+  - destruct S.
+  - cbn [nodes]. destruct S as [S|S]; [specialize (IHl S)|specialize (IHr S)]; lia.
+Qed.
+
+Lemma min_key_in t : In (min_key t) (map fst (elems t)).
+Proof. destruct (elems_min t) as (v & rest & E). rewrite E. left. reflexivity. Qed.
+
+Lemma wf_left_lt k h z m l r x :
+  wf (Inner k h z m l r) -> In x (map fst (elems l)) -> x <b k.
+Proof.
+  intros W I. apply wf_keys_lt in W. unfold keys_lt in W. rewrite Forall_forall in W.
+  apply in_map_iff in I. destruct I as (p & <- & I). apply W, I.
+Qed.
+Lemma wf_right_ge k h z m l r x :
+  wf (Inner k h z m l r) -> In x (map fst (elems r)) -> k <=b x.
+Proof.
+  intros W I. apply wf_keys_ge in W. unfold keys_ge in W. rewrite Forall_forall in W.
+  apply in_map_iff in I. destruct I as (p & <- & I). apply W, I.
+Qed.
+
+Lemma wf_children k h z m l r : wf (Inner k h z m l r) -> wf l /\ wf r.
+Proof. cbn [wf]. tauto. Qed.
+
+(** ** The walk of the current tree *)
+Lemma citems_ck pv t :
+  wf t ->
+  ksorted (map ck (citems pv t)) /\
+  (forall x, In x (map ck (citems pv t)) -> In x (map fst (elems t))).
+Proof.
+  induction t as [k v m|k h z m l IHl r IHr]; intros W.
+  - destruct (ver m <=? pv) eqn:Sh.
+    + rewrite citems_shared by exact Sh. cbn. repeat split; auto.
+    + rewrite citems_leaf by exact Sh. cbn. repeat split; auto.
+  - destruct (ver m <=? pv) eqn:Sh.
+    + rewrite citems_shared by exact Sh. cbn [map ck ksorted In]. repeat split; auto.
+      intros x [<-|[]]. apply min_key_in.
+    + rewrite citems_inner by exact Sh. destruct (wf_children _ _ _ _ _ _ W) as [Wl Wr].
+      destruct (IHl Wl) as [Sl Il]. destruct (IHr Wr) as [Sr Ir]. rewrite map_app. split.
+      * apply ksorted_app. repeat split; auto. intros x y Ix Iy.
+        pose proof (wf_left_lt _ _ _ _ _ _ _ W (Il _ Ix)).
+        pose proof (wf_right_ge _ _ _ _ _ _ _ W (Ir _ Iy)). border.
+      * intros x I. cbn [elems]. rewrite map_app. apply in_app_or in I. apply in_or_app.
+        destruct I as [I|I]; [left|right]; auto.
+Qed.
+
+Lemma pitems_pk sh t :
+  wf t ->
+  ksorted (map pk (pitems sh t)) /\
+  (forall x, In x (map pk (pitems sh t)) -> In x (map fst (elems t))).
+Proof.
+  induction t as [k v m|k h z m l IHl r IHr]; intros W.
+  - destruct (sh (nk (Leaf k v m))) eqn:Sh.
+    + rewrite pitems_shared by exact Sh. cbn. repeat split; auto.
+    + rewrite pitems_leaf by exact Sh. cbn. repeat split; auto.
+  - destruct (sh (nk (Inner k h z m l r))) eqn:Sh.
+    + rewrite pitems_shared by exact Sh. cbn [map pk ksorted In]. repeat split; auto.
+      intros x [<-|[]]. apply min_key_in.
+    + rewrite pitems_inner by exact Sh. destruct (wf_children _ _ _ _ _ _ W) as [Wl Wr].
+      destruct (IHl Wl) as [Sl Il]. destruct (IHr Wr) as [Sr Ir]. rewrite map_app. split.
+      * apply ksorted_app. repeat split; auto. intros x y Ix Iy.
+        pose proof (wf_left_lt _ _ _ _ _ _ _ W (Il _ Ix)).
+        pose proof (wf_right_ge _ _ _ _ _ _ _ W (Ir _ Iy)). border.
+      * intros x I. cbn [elems]. rewrite map_app. apply in_app_or in I. apply in_or_app.
+        destruct I as [I|I]; [left|right]; auto.
+Qed.
+
+Lemma cshared_sub pv t s :
+  In s (cshared (citems pv t)) -> subtree s t /\ ver (nmeta s) <= pv.
+Proof.
+  induction t as [k v m|k h z m l IHl r IHr].
+  - destruct (ver m <=? pv) eqn:Sh.
+    + rewrite citems_shared by exact Sh. cbn [cshared In]. intros [<-|[]].
+      split; [apply subtree_refl|cbn [nmeta]; lia].
+    + rewrite citems_leaf by exact Sh. cbn [cshared In]. tauto.
+  - destruct (ver m <=? pv) eqn:Sh.
+    + rewrite citems_shared by exact Sh. cbn [cshared In]. intros [<-|[]].
+      split; [apply subtree_refl|cbn [nmeta]; lia].
+    + rewrite citems_inner by exact Sh. rewrite cshared_app, in_app_iff. cbn [subtree].
+      intros [I|I]; [destruct (IHl I)|destruct (IHr I)]; auto.
+Qed.
+
+Lemma pshared_sub sh t s :
+  In s (pshared (pitems sh t)) -> subtree s t /\ sh (nk s) = true.
+Proof.
+  induction t as [k v m|k h z m l IHl r IHr].
+  - destruct (sh (nk (Leaf k v m))) eqn:Sh.
+    + rewrite pitems_shared by exact Sh. cbn [pshared In]. intros [<-|[]].
+      split; [apply subtree_refl|exact Sh].
+    + rewrite pitems_leaf by exact Sh. cbn [pshared In]. tauto.
+  - destruct (sh (nk (Inner k h z m l r))) eqn:Sh.
+    + rewrite pitems_shared by exact Sh. cbn [pshared In]. intros [<-|[]].
+      split; [apply subtree_refl|exact Sh].
+    + rewrite pitems_inner by exact Sh. rewrite pshared_app, in_app_iff. cbn [subtree].
+      intros [I|I]; [destruct (IHl I)|destruct (IHr I)]; auto.
+Qed.
+
+Lemma ver_mono_old pv t : ver_mono t -> ver (nmeta t) <= pv -> new_leaves pv t = [].
+Proof.
+  induction t as [k v m|k h z m l IHl r IHr]; cbn [ver_mono nmeta new_leaves]; intros M V.
+  - replace (ver m <=? pv) with true by (symmetry; apply Z.leb_le; exact V). reflexivity.
+  - destruct M as (Vl & Vr & Ml & Mr). rewrite IHl, IHr; auto; lia.
+Qed.
+
+Lemma cnews_new_leaves pv t : ver_mono t -> cnews (citems pv t) = new_leaves pv t.
+Proof.
+  induction t as [k v m|k h z m l IHl r IHr]; intros M.
+  - cbn [citems nmeta new_leaves]. destruct (ver m <=? pv); reflexivity.
+  - destruct (ver m <=? pv) eqn:Sh.
+    + rewrite citems_shared by exact Sh. cbn [cnews]. symmetry. apply ver_mono_old; auto.
+      cbn [nmeta]. lia.
+    + rewrite citems_inner by exact Sh. cbn [ver_mono] in M. destruct M as (_ & _ & Ml & Mr).
+      rewrite cnews_app, IHl, IHr; auto.
+Qed.
+
+Lemma elems_citems pv t k v :
+  In (k, v) (elems t) ->
+  In (CNew k v) (citems pv t) \/ exists s, In s (cshared (citems pv t)) /\ In (k, v) (elems s).
+Proof.
+  induction t as [k0 v0 m|k0 h z m l IHl r IHr]; intros I.
+  - destruct (ver m <=? pv) eqn:Sh.
+    + rewrite citems_shared by exact Sh. right. eexists. split; [left; reflexivity|exact I].
+    + rewrite citems_leaf by exact Sh. left. cbn [elems In] in I. destruct I as [E|[]].
+      inversion E; subst. left; reflexivity.
+  - destruct (ver m <=? pv) eqn:Sh.
+    + rewrite citems_shared by exact Sh. right. eexists. split; [left; reflexivity|exact I].
+    + rewrite citems_inner by exact Sh. cbn [elems] in I. apply in_app_or in I.
+      rewrite cshared_app. destruct I as [I|I]; [destruct (IHl I) as [J|(s & J & K)]|destruct (IHr I) as [J|(s & J & K)]].
+      * left. apply in_or_app. auto.
+      * right. exists s. split; [apply in_or_app; auto|exact K].
+      * left. apply in_or_app. auto.
+      * right. exists s. split; [apply in_or_app; auto|exact K].
+Qed.
+
+(** ** The walk of the previous tree *)
+Lemma elems_pitems sh t k :
+  In k (map fst (elems t)) ->
+  In (POrph k) (pitems sh t) \/
+  exists s, In s (pshared (pitems sh t)) /\ In k (map fst (elems s)).
+Proof.
+  induction t as [k0 v0 m|k0 h z m l IHl r IHr]; intros I.
+  - destruct (sh (nk (Leaf k0 v0 m))) eqn:Sh.
+    + rewrite pitems_shared by exact Sh. right. eexists. split; [left; reflexivity|exact I].
+    + rewrite pitems_leaf by exact Sh. left. cbn [elems map fst In] in I. destruct I as [<-|[]].
+      left; reflexivity.
+  - destruct (sh (nk (Inner k0 h z m l r))) eqn:Sh.
+    + rewrite pitems_shared by exact Sh. right. eexists. split; [left; reflexivity|exact I].
+    + rewrite pitems_inner by exact Sh. cbn [elems] in I. rewrite map_app in I. apply in_app_or in I.
+      rewrite pshared_app. destruct I as [I|I]; [destruct (IHl I) as [J|(s & J & K)]|destruct (IHr I) as [J|(s & J & K)]].
+      * left. apply in_or_app. auto.
+      * right. exists s. split; [apply in_or_app; auto|exact K].
+      * left. apply in_or_app. auto.
+      * right. exists s. split; [apply in_or_app; auto|exact K].
+Qed.
+
+Lemma porph_keys sh t k : In (POrph k) (pitems sh t) -> In k (map fst (elems t)).
+Proof.
+  induction t as [k0 v0 m|k0 h z m l IHl r IHr].
+  - destruct (sh (nk (Leaf k0 v0 m))) eqn:Sh.
+    + rewrite pitems_shared by exact Sh. intros [E|[]]. discriminate E.
+    + rewrite pitems_leaf by exact Sh. intros [E|[]]. inversion E; subst. left; reflexivity.
+  - destruct (sh (nk (Inner k0 h z m l r))) eqn:Sh.
+    + rewrite pitems_shared by exact Sh. intros [E|[]]. discriminate E.
+    + rewrite pitems_inner by exact Sh. cbn [elems]. rewrite map_app, !in_app_iff.
+      intros [I|I]; auto.
+Qed.
+
+(** an orphaned key does not occur below a recognised subtree of the same tree *)
+Lemma orph_not_shared sh t k s :
+  wf t -> In (POrph k) (pitems sh t) -> In s (pshared (pitems sh t)) ->
+  ~ In k (map fst (elems s)).
+Proof.
+  induction t as [k0 v0 m|k0 h z m l IHl r IHr]; intros W.
+  - destruct (sh (nk (Leaf k0 v0 m))) eqn:Sh.
+    + rewrite pitems_shared by exact Sh. intros [E|[]]. discriminate E.
+    + rewrite pitems_leaf by exact Sh. cbn [pshared In]. tauto.
+  - destruct (sh (nk (Inner k0 h z m l r))) eqn:Sh.
+    + rewrite pitems_shared by exact Sh. intros [E|[]]. discriminate E.
+    + rewrite pitems_inner by exact Sh. rewrite pshared_app, !in_app_iff.
+      destruct (wf_children _ _ _ _ _ _ W) as [Wl Wr].
+      intros [Io|Io] [Is|Is]; auto; intros Ik.
+      * pose proof (wf_left_lt _ _ _ _ _ _ _ W (porph_keys _ _ _ Io)).
+        destruct (pshared_sub _ _ _ Is) as [Sb _].
+        pose proof (wf_right_ge _ _ _ _ _ _ _ W (subtree_keys _ _ _ Sb Ik)). border.
+      * pose proof (wf_right_ge _ _ _ _ _ _ _ W (porph_keys _ _ _ Io)).
+        destruct (pshared_sub _ _ _ Is) as [Sb _].
+        pose proof (wf_left_lt _ _ _ _ _ _ _ W (subtree_keys _ _ _ Sb Ik)). border.
+Qed.
+
+(** the topmost shared subtrees of the current tree are pairwise unrelated *)
+Lemma ctops_antichain pv t a s :
+  wf t -> In a (cshared (citems pv t)) -> In s (cshared (citems pv t)) -> subtree s a -> s = a.
+Proof.
+  induction t as [k0 v0 m|k0 h z m l IHl r IHr]; intros W.
+  - destruct (ver m <=? pv) eqn:Sh.
+    + rewrite citems_shared by exact Sh. cbn [cshared In]. intros [<-|[]] [<-|[]] _. reflexivity.
+    + rewrite citems_leaf by exact Sh. cbn [cshared In]. tauto.
+  - destruct (ver m <=? pv) eqn:Sh.
+    + rewrite citems_shared by exact Sh. cbn [cshared In]. intros [<-|[]] [<-|[]] _. reflexivity.
+    + rewrite citems_inner by exact Sh. rewrite cshared_app, !in_app_iff.
+      destruct (wf_children _ _ _ _ _ _ W) as [Wl Wr].
+      intros [Ia|Ia] [Is|Is] Sb; auto; exfalso.
+      * destruct (cshared_sub _ _ _ Ia) as [Sa _]. destruct (cshared_sub _ _ _ Is) as [Ss _].
+        pose proof (wf_left_lt _ _ _ _ _ _ _ W
+                      (subtree_keys _ _ _ Sa (subtree_keys _ _ _ Sb (min_key_in s)))).
+        pose proof (wf_right_ge _ _ _ _ _ _ _ W (subtree_keys _ _ _ Ss (min_key_in s))). border.
+      * destruct (cshared_sub _ _ _ Ia) as [Sa _]. destruct (cshared_sub _ _ _ Is) as [Ss _].
+        pose proof (wf_right_ge _ _ _ _ _ _ _ W
+                      (subtree_keys _ _ _ Sa (subtree_keys _ _ _ Sb (min_key_in s)))).
+        pose proof (wf_left_lt _ _ _ _ _ _ _ W (subtree_keys _ _ _ Ss (min_key_in s))). border.
+Qed.
+
+(** a recognised subtree of [p] is met by the walk, or lies strictly below one that is *)
+Lemma top_or_below sh p s :
+  subtree s p -> sh (nk s) = true ->
+  In s (pshared (pitems sh p)) \/
+  exists a, In a (pshared (pitems sh p)) /\ subtree s a /\ (nodes s < nodes a)%nat.
+Proof.
+  induction p as [k0 v0 m|k0 h z m l IHl r IHr]; intros Sb Sh.
+  - cbn [subtree] in Sb. destruct Sb as [->|[]]. rewrite pitems_shared by exact Sh. left. left. reflexivity.
+  - destruct (sh (nk (Inner k0 h z m l r))) eqn:Sp.
+    + rewrite pitems_shared by exact Sp. cbn [pshared In]. cbn [subtree] in Sb.
+      destruct Sb as [->|Sb]; [left; left; reflexivity|].
+      right. eexists. split; [left; reflexivity|]. split; [right; exact Sb|].
+      cbn [nodes]. destruct Sb as [Sb|Sb]; apply subtree_nodes in Sb; lia.
+    + rewrite pitems_inner by exact Sp. rewrite pshared_app. cbn [subtree] in Sb.
+      destruct Sb as [->|[Sb|Sb]]; [congruence| |].
+      * destruct (IHl Sb Sh) as [I|(a & I & Q)].
+        -- left. apply in_or_app. auto.
+        -- right. exists a. split; [apply in_or_app; auto|exact Q].
+      * destruct (IHr Sb Sh) as [I|(a & I & Q)].
+        -- left. apply in_or_app. auto.
+        -- right. exists a. split; [apply in_or_app; auto|exact Q].
+Qed.
+
+Lemma ksorted_cshared cs : ksorted (map ck cs) -> ksorted (map min_key (cshared cs)).
+Proof.
+  induction cs as [|[k v|s] cs IH]; cbn [map ck cshared]; intros S; [exact I| |].
+  - apply IH, (ksorted_tail _ _ S).
+  - cbn [map ksorted]. split; [|apply IH, (ksorted_tail _ _ S)].
+    apply Forall_forall. intros x I. apply in_map_iff in I. destruct I as (s' & <- & I).
+    apply (ksorted_head _ _ _ S), cshared_ck, I.
+Qed.
+Lemma ksorted_pshared ps : ksorted (map pk ps) -> ksorted (map min_key (pshared ps)).
+Proof.
+  induction ps as [|[k|s] ps IH]; cbn [map pk pshared]; intros S; [exact I| |].
+  - apply IH, (ksorted_tail _ _ S).
+  - cbn [map ksorted]. split; [|apply IH, (ksorted_tail _ _ S)].
+    apply Forall_forall. intros x I. apply in_map_iff in I. destruct I as (s' & <- & I).
+    apply (ksorted_head _ _ _ S), pshared_pk, I.
+Qed.
+
+(** ** The node keys recognised in the previous tree: those of the topmost shared subtrees *)
+Definition nk_eqb (a b : Z * Z) : bool := (fst a =? fst b) && (snd a =? snd b).
+Lemma nk_eqb_eq a b : nk_eqb a b = true <-> a = b.
+Proof.
+  destruct a as [a1 a2], b as [b1 b2]. unfold nk_eqb. cbn [fst snd].
+  rewrite andb_true_iff, !Z.eqb_eq. split; [intros [-> ->]; reflexivity|intros E; inversion E; auto].
+Qed.
+
+Definition shared_keys (pv : Z) (cur : option node) : Z * Z -> bool :=
+  fun key => existsb (fun s => nk_eqb (nk s) key) (cshared (ocitems pv cur)).
+
+Lemma shared_keys_spec pv cur key :
+  shared_keys pv cur key = true <-> exists s, In s (cshared (ocitems pv cur)) /\ nk s = key.
+Proof.
+  unfold shared_keys. rewrite existsb_exists. split; intros (s & I & E); exists s; split; auto;
+    apply nk_eqb_eq; exact E.
+Qed.
+
+(** ** The hypotheses relating the two trees *)
+Definition shared_in_prev (pv : Z) (prev cur : option node) : Prop :=
+  forall s, osubtree s cur -> ver (nmeta s) <= pv -> osubtree s prev.
+Definition keys_identify (prev cur : option node) : Prop :=
+  forall x y, osubtree x prev -> osubtree y cur -> nk x = nk y -> x = y.
+
+Lemma ocshared_sub pv cur s :
+  In s (cshared (ocitems pv cur)) -> osubtree s cur /\ ver (nmeta s) <= pv.
+Proof. destruct cur; cbn [ocitems osubtree cshared In]; [apply cshared_sub|tauto]. Qed.
+Lemma opshared_sub sh prev s :
+  In s (pshared (opitems sh prev)) -> osubtree s prev /\ sh (nk s) = true.
+Proof. destruct prev; cbn [opitems osubtree pshared In]; [apply pshared_sub|tauto]. Qed.
+
+Lemma ocitems_ck pv cur : owf cur -> ksorted (map ck (ocitems pv cur)).
+Proof. destruct cur; cbn [owf ocitems map ksorted]; [intros W; apply citems_ck, W|auto]. Qed.
+Lemma opitems_pk sh prev : owf prev -> ksorted (map pk (opitems sh prev)).
+Proof. destruct prev; cbn [owf opitems map ksorted]; [intros W; apply pitems_pk, W|auto]. Qed.
+
+(** the walk of the previous tree meets exactly the topmost shared subtrees of the current
+    tree, in the same order *)
+Theorem walks_aligned pv prev cur :
+  owf prev -> owf cur -> shared_in_prev pv prev cur -> keys_identify prev cur ->
+  pshared (opitems (shared_keys pv cur) prev) = cshared (ocitems pv cur).
+Proof.
+  intros Wp Wc SP KI. set (sh := shared_keys pv cur).
+  assert (Fwd : forall x, In x (pshared (opitems sh prev)) -> In x (cshared (ocitems pv cur))).
+  { intros x I. destruct (opshared_sub _ _ _ I) as [Sx Shx].
+    apply shared_keys_spec in Shx. destruct Shx as (s & Is & E).
+    destruct (ocshared_sub _ _ _ Is) as [Ss _].
+    rewrite (KI x s Sx Ss (eq_sym E)). exact Is. }
+  apply (ksorted_ext min_key).
+  - apply ksorted_pshared, opitems_pk, Wp.
+  - apply ksorted_cshared, ocitems_ck, Wc.
+  - intros x. split; [apply Fwd|]. intros I.
+    destruct (ocshared_sub _ _ _ I) as [Sx Vx].
+    assert (Shx : sh (nk x) = true) by (apply shared_keys_spec; eauto).
+    pose proof (SP x Sx Vx) as Sp.
+    destruct prev as [p|]; [|destruct Sp]. cbn [osubtree opitems] in *.
+    destruct (top_or_below sh p x Sp Shx) as [J|(a & J & Sb & Lt)]; [exact J|].
+    exfalso. pose proof (Fwd a J) as Ia.
+    destruct cur as [c|]; [|destruct I]. cbn [ocitems owf] in *.
+    pose proof (ctops_antichain pv c a x Wc Ia I Sb). subst a. lia.
+Qed.
+
+(** ** Theorem 2: the two-iterator merge computes the net change *)
+Theorem extract_is_net pv prev cur :
+  owf prev -> owf cur -> over_mono cur ->
+  shared_in_prev pv prev cur -> keys_identify prev cur ->
+  extract pv prev cur = Some (net prev cur pv).
+Proof.
+  intros Wp Wc VM SP KI. set (sh := shared_keys pv cur).
+  pose proof (walks_aligned pv prev cur Wp Wc SP KI) as AL. fold sh in AL.
+  rewrite (extract_b_loop pv sh).
+  2:{ rewrite AL. reflexivity. }
+  2:{ intros s I. apply shared_keys_spec. exists s. split; [apply cshared_In, I|reflexivity]. }
+  f_equal.
+  destruct (b_loop_props (opitems sh prev) (ocitems pv cur)
+              (ocitems_ck pv cur Wc) (opitems_pk sh prev Wp) AL) as (OS & HS & HD).
+  assert (News : cnews (ocitems pv cur) = sets_of pv cur).
+  { destruct cur; cbn [ocitems sets_of cnews]; [apply cnews_new_leaves, VM|reflexivity]. }
+  apply (ksorted_ext ckey); [exact OS|apply net_sorted; assumption|].
+  intros [k v|k].
+  - rewrite HS, net_set_In, <- News, cnews_In. reflexivity.
+  - rewrite HD, net_del_In, dels_In, News. split.
+    + intros [Io Nn]. split.
+      * destruct prev as [p|]; [|destruct Io]. apply (porph_keys sh), Io.
+      * intros Ic. apply in_map_iff in Ic. destruct Ic as ([k' v] & E & Ic). cbn [fst] in E. subst k'.
+        destruct cur as [c|]; [|destruct Ic]. cbn [oelems ocitems sets_of] in *.
+        destruct (elems_citems pv c k v Ic) as [J|(s & J & K)].
+        -- apply Nn. apply in_map_iff. exists (k, v). split; [reflexivity|].
+           rewrite <- News. apply cnews_In, J.
+        -- rewrite <- AL in J. destruct prev as [p|]; [|destruct J]. cbn [opitems owf] in *.
+           apply (orph_not_shared sh p k s Wp Io J). apply in_map_iff. exists (k, v). auto.
+    + intros [Ip Nc]. split.
+      * destruct prev as [p|]; [|destruct Ip]. cbn [oelems opitems] in *.
+        destruct (elems_pitems sh p k Ip) as [J|(s & J & K)]; [exact J|].
+        exfalso. apply Nc. rewrite AL in J. destruct (ocshared_sub _ _ _ J) as [Ss _].
+        destruct cur as [c|]; [|destruct Ss]. cbn [osubtree oelems] in *.
+        apply (subtree_keys _ _ _ Ss K).
+      * intros Is. apply Nc. apply in_map_iff in Is. destruct Is as (p0 & E & Is).
+        apply in_map_iff. exists p0. split; [exact E|]. apply (sets_incl pv), Is.
+Qed.
+
+(** ** Decidable versions of the hypotheses (to instantiate the theorems on concrete trees) *)
+Fixpoint subtrees (t : node) : list node :=
+  t :: match t with
+       | Leaf _ _ _ => []
+       | Inner _ _ _ _ l r => subtrees l ++ subtrees r
+       end.
+Definition osubtrees (o : option node) : list node :=
+  match o with None => [] | Some t => subtrees t end.
+
+Lemma subtrees_spec s t : In s (subtrees t) <-> subtree s t.
+Proof.
+  induction t as [k v m|k h z m l IHl r IHr]; cbn [subtrees subtree In].
+  - split; intros [E|[]]; left; congruence.
+  - rewrite in_app_iff, IHl, IHr. split; intros [E|S]; auto; left; congruence.
+Qed.
+Lemma osubtrees_spec s o : In s (osubtrees o) <-> osubtree s o.
+Proof. destruct o; cbn [osubtrees osubtree In]; [apply subtrees_spec|tauto]. Qed.
+
+Definition bytes_eq_dec : forall a b : bytes, {a = b} + {a <> b} := list_eq_dec N.eq_dec.
+Definition meta_eq_dec (a b : meta) : {a = b} + {a <> b}.
+Proof. decide equality; [apply bytes_eq_dec|apply Z.eq_dec|apply Z.eq_dec]. Defined.
+Definition node_eq_dec (a b : node) : {a = b} + {a <> b}.
+Proof. decide equality; try apply bytes_eq_dec; try apply meta_eq_dec; apply Z.eq_dec. Defined.
+Definition node_eqb (a b : node) : bool := if node_eq_dec a b then true else false.
+Lemma node_eqb_eq a b : node_eqb a b = true <-> a = b.
+Proof. unfold node_eqb. destruct (node_eq_dec a b); split; congruence. Qed.
+
+Definition shared_in_prev_b (pv : Z) (prev cur : option node) : bool :=
+  forallb (fun s => (pv <? ver (nmeta s)) || existsb (node_eqb s) (osubtrees prev)) (osubtrees cur).
+Definition keys_identify_b (prev cur : option node) : bool :=
+  forallb (fun x => forallb (fun y => negb (nk_eqb (nk x) (nk y)) || node_eqb x y) (osubtrees cur))
+          (osubtrees prev).
+Fixpoint ver_mono_b (t : node) : bool :=
+  match t with
+  | Leaf _ _ _ => true
+  | Inner _ _ _ m l r =>
+      (ver (nmeta l) <=? ver m) && (ver (nmeta r) <=? ver m) && ver_mono_b l && ver_mono_b r
+  end.
+Definition over_mono_b (t : option node) : bool :=
+  match t with None => true | Some n => ver_mono_b n end.
+
+Lemma shared_in_prev_b_sound pv prev cur :
+  shared_in_prev_b pv prev cur = true -> shared_in_prev pv prev cur.
+Proof.
+  unfold shared_in_prev_b, shared_in_prev. rewrite forallb_forall. intros F s S V.
+  apply osubtrees_spec in S. specialize (F s S). apply orb_true_iff in F. destruct F as [F|F].
+  - apply Z.ltb_lt in F. lia.
+  - apply existsb_exists in F. destruct F as (x & I & E). apply node_eqb_eq in E. subst x.
+    apply osubtrees_spec, I.
+Qed.
+
+Lemma keys_identify_b_sound prev cur :
+  keys_identify_b prev cur = true -> keys_identify prev cur.
+Proof.
+  unfold keys_identify_b, keys_identify. rewrite forallb_forall. intros F x y Sx Sy E.
+  apply osubtrees_spec in Sx, Sy. specialize (F x Sx). rewrite forallb_forall in F.
+  specialize (F y Sy). apply orb_true_iff in F. destruct F as [F|F].
+  - apply negb_true_iff in F. assert (nk_eqb (nk x) (nk y) = true) by (apply nk_eqb_eq, E). congruence.
+  - apply node_eqb_eq, F.
+Qed.
+
+Lemma ver_mono_b_sound t : ver_mono_b t = true -> ver_mono t.
+Proof.
+  induction t as [k v m|k h z m l IHl r IHr]; cbn [ver_mono_b ver_mono]; [auto|].
+  rewrite !andb_true_iff, !Z.leb_le. intros [[[A B] C] D]. auto.
+Qed.
+Lemma over_mono_b_sound t : over_mono_b t = true -> over_mono t.
+Proof. destruct t; cbn [over_mono_b over_mono]; [apply ver_mono_b_sound|auto]. Qed.
+
+(** the weaker hypothesis of Theorem 1 follows from persistent sharing *)
+Lemma old_leaves_sub pv t p : In p (old_leaves pv t) ->
+  exists m, subtree (Leaf (fst p) (snd p) m) t /\ ver m <= pv.
+Proof.
+  induction t as [k v m|k h z m l IHl r IHr]; cbn [old_leaves].
+  - destruct (ver m <=? pv) eqn:E; [|intros []]. intros [<-|[]]. apply Z.leb_le in E.
+    exists m. split; [left; reflexivity|exact E].
+  - rewrite in_app_iff. cbn [subtree]. intros [I|I]; [destruct (IHl I) as (m0 & S & V)|destruct (IHr I) as (m0 & S & V)];
+      exists m0; auto.
+Qed.
+
+Lemma shared_old_leaves pv prev cur :
+  shared_in_prev pv prev cur -> forall p, In p (oold pv cur) -> In p (oelems prev).
+Proof.
+  intros SP p I. destruct cur as [c|]; [|destruct I]. cbn [oold] in I.
+  destruct (old_leaves_sub pv c p I) as (m & S & V).
+  pose proof (SP _ S V) as Sp. destruct prev as [q|]; [|destruct Sp]. cbn [osubtree oelems] in *.
+  apply (subtree_elems _ _ _ Sp). destruct p. left. reflexivity.
+Qed.
+
+(** * 8. SaveChangeSet on the MutableTree machine *)
+
+(** every removal finds its key when the pairs are applied left to right *)
+Fixpoint cs_ok (cs : list change) (l : kvs) : Prop :=
+  match cs with
+  | [] => True
+  | CSet k v :: r => cs_ok r (ins k v l)
+  | CDel k :: r => mem k l = true /\ cs_ok r (del k l)
+  end.
+
+Lemma mem_apply_change_ne k c l : k <> ckey c -> mem k (apply_change c l) = mem k l.
+Proof. intros NE. unfold mem. rewrite assoc_apply_change_ne by exact NE. reflexivity. Qed.
+
+Lemma sorted_cs_ok cs : forall l,
+  ksorted (map ckey cs) -> (forall k, In (CDel k) cs -> mem k l = true) -> cs_ok cs l.
+Proof.
+  induction cs as [|c cs IH]; intros l S D; cbn [cs_ok]; [exact I|].
+  cbn [map] in S.
+  assert (Rest : forall k, In (CDel k) cs -> mem k (apply_change c l) = true).
+  { intros k I. rewrite mem_apply_change_ne; [apply D; right; exact I|].
+    intros E. apply (ksorted_not_in _ _ S). rewrite <- E. apply (in_map ckey _ _ I). }
+  destruct c as [k v|k]; cbn [apply_change] in Rest.
+  - apply IH; [exact (ksorted_tail _ _ S)|exact Rest].
+  - split; [apply D; left; reflexivity|]. apply IH; [exact (ksorted_tail _ _ S)|exact Rest].
+Qed.
+
+Lemma net_cs_ok pv prev cur : owf prev -> owf cur -> cs_ok (net prev cur pv) (oelems prev).
+Proof.
+  intros Wp Wc. apply sorted_cs_ok; [apply net_sorted; assumption|].
+  intros k I. apply net_del_In, dels_In in I. apply mem_true_in, I.
+Qed.
+
+Lemma same_but_root_wv s s' : same_but_root s s' -> working_version s' = working_version s.
+Proof. intros (V & _ & _ & IV & IS & _). unfold working_version. rewrite V, IV, IS. reflexivity. Qed.
+
+Section SaveChangeSet.
+  Variable H : bytes -> bytes.
+
+  Lemma stamp_not_new wv n t : wv <> 0 -> is_new (fst (stamp H wv n t)) = false.
+  Proof.
+    intros NZ. destruct t as [k v m|k h z m l r].
+    - rewrite stamp_leaf. destruct (is_new (Leaf k v m)) eqn:E; cbn [negb fst]; [|exact E].
+      unfold is_new. cbn [nmeta ver]. apply Z.eqb_neq, NZ.
+    - rewrite stamp_inner. destruct (is_new (Inner k h z m l r)) eqn:E; cbn [negb fst]; [|exact E].
+      destruct (stamp H wv (n + 1) l) as [l' n1]. destruct (stamp H wv n1 r) as [r' n2].
+      cbn [fst]. unfold is_new. cbn [nmeta ver]. apply Z.eqb_neq, NZ.
+  Qed.
+
+  Definition saved_state (s : mstate) (r' : option node) : mstate * out :=
+    (MState r' (working_version s) r' (forest s ++ [(working_version s, r')])
+            (init_ver s) false (init_opt s),
+     XPair (XBytes (Some (root_hash H (working_version s) r'))) (XInt (working_version s))).
+
+  Definition onot_new (r : option node) : Prop :=
+    match r with Some n => is_new n = false | None => True end.
+
+  Lemma do_save_new_root s :
+    lookup (working_version s) (forest s) = None ->
+    exists r', oelems r' = oelems (root s) /\ (working_version s <> 0 -> onot_new r') /\
+               do_save H s = saved_state s r'.
+  Proof.
+    intros L.
+    exists (match root s with
+            | None => None
+            | Some n => Some (fst (stamp H (working_version s) 0 n))
+            end).
+    split; [|split].
+    - destruct (root s); cbn [oelems]; [apply stamp_elems|reflexivity].
+    - intros NZ. destruct (root s); cbn [onot_new]; [apply stamp_not_new, NZ|exact I].
+    - unfold do_save, version_exists, saved_state. cbv zeta. rewrite L. reflexivity.
+  Qed.
+
+  (** a change set whose removals all find their key is applied as one new version *)
+  Lemma apply_pairs_ok cs : forall s,
+    state_inv s -> cs_ok cs (oelems (root s)) ->
+    lookup (working_version s) (forest s) = None ->
+    exists r',
+      oelems r' = apply_changes cs (oelems (root s)) /\
+      (working_version s <> 0 -> onot_new r') /\
+      apply_pairs H s cs = saved_state s r'.
+  Proof.
+    induction cs as [|c cs IH]; intros s I OK L.
+    - cbn [apply_pairs apply_changes step]. apply do_save_new_root, L.
+    - destruct c as [k v|k]; cbn [cs_ok] in OK; cbn [apply_pairs apply_changes apply_change step].
+      + destruct (do_set_refines s k v I) as (E & _ & SB).
+        pose proof (do_set_inv s k v I) as I1.
+        set (s1 := fst (do_set s k v)) in *.
+        pose proof (same_but_root_wv _ _ SB) as WV. destruct SB as (_ & _ & F & IV & _ & IO).
+        destruct (IH s1 I1) as (r' & E' & NN & AP).
+        { rewrite E. exact OK. }
+        { rewrite WV, F. exact L. }
+        exists r'. rewrite <- E. split; [exact E'|]. split; [rewrite <- WV; exact NN|].
+        rewrite AP. unfold saved_state. rewrite WV, F, IV, IO. reflexivity.
+      + destruct OK as [M OK].
+        destruct (do_remove_refines s k I) as (E & O & SB).
+        pose proof (do_remove_inv s k I) as I1.
+        destruct (do_remove s k) as [s1 o]. cbn [fst snd] in *. subst o. rewrite M.
+        pose proof (same_but_root_wv _ _ SB) as WV. destruct SB as (_ & _ & F & IV & _ & IO).
+        destruct (IH s1 I1) as (r' & E' & NN & AP).
+        { rewrite E. exact OK. }
+        { rewrite WV, F. exact L. }
+        exists r'. rewrite <- E. split; [exact E'|]. split; [rewrite <- WV; exact NN|].
+        rewrite AP. unfold saved_state. rewrite WV, F, IV, IO. reflexivity.
+  Qed.
+
+  (** the first removal of a missing key aborts: [XErr], no version is created, the pairs
+      before it stay applied to the working tree *)
+  Lemma apply_pairs_missing pre k post : forall s,
+    state_inv s -> cs_ok pre (oelems (root s)) ->
+    mem k (apply_changes pre (oelems (root s))) = false ->
+    exists s',
+      apply_pairs H s (pre ++ CDel k :: post) = (s', XErr) /\
+      forest s' = forest s /\ version s' = version s /\
+      oelems (root s') = apply_changes pre (oelems (root s)).
+  Proof.
+    induction pre as [|c pre IH]; intros s I OK M; cbn [app apply_pairs apply_changes] in *.
+    - cbn [step]. destruct (do_remove_refines s k I) as (E & O & SB).
+      destruct (do_remove s k) as [s1 o]. cbn [fst snd] in *. subst o. rewrite M.
+      exists s1. destruct SB as (V & _ & F & _). repeat split; auto.
+      rewrite E. apply del_absent. unfold mem in M. destruct (assoc k (oelems (root s))); [discriminate|reflexivity].
+    - destruct c as [k' v|k']; cbn [cs_ok apply_change] in *; cbn [step].
+      + destruct (do_set_refines s k' v I) as (E & _ & SB).
+        pose proof (do_set_inv s k' v I) as I1. set (s1 := fst (do_set s k' v)) in *.
+        destruct (IH s1 I1) as (s' & AP & F' & V' & E').
+        { rewrite E. exact OK. }
+        { rewrite E. exact M. }
+        destruct SB as (V & _ & F & _).
+        exists s'. rewrite AP, F', V', E', E, F, V. auto.
+      + destruct OK as [M' OK].
+        destruct (do_remove_refines s k' I) as (E & O & SB).
+        pose proof (do_remove_inv s k' I) as I1.
+        destruct (do_remove s k') as [s1 o]. cbn [fst snd] in *. subst o. rewrite M'.
+        destruct (IH s1 I1) as (s' & AP & F' & V' & E').
+        { rewrite E. exact OK. }
+        { rewrite E. exact M. }
+        destruct SB as (V & _ & F & _).
+        exists s'. rewrite AP, F', V', E', E, F, V. auto.
+  Qed.
+
+  Lemma apply_pairs_inv cs : forall s, state_inv s -> state_inv (fst (apply_pairs H s cs)).
+  Proof.
+    induction cs as [|c cs IH]; intros s I; cbn [apply_pairs].
+    - apply step_inv, I.
+    - destruct c as [k v|k].
+      + apply IH, step_inv, I.
+      + pose proof (step_inv H s (ORemove k) I) as I1.
+        destruct (step H s (ORemove k)) as [s1 o]. cbn [fst] in I1.
+        destruct o as [| |b|z|b|l|l|a b]; try exact I1.
+        destruct b as [| |b|z|b|l|l|a' b']; try exact I1.
+        destruct b; [apply IH, I1|exact I1].
+  Qed.
+
+  (** ** Theorem 3: saving the net change of a version on top of its predecessor's contents
+      creates one new version with that version's contents. *)
+  Theorem save_change_set_net pv prev cur s :
+    state_inv s -> root_is_new s = false ->
+    oelems (root s) = oelems prev ->
+    lookup (working_version s) (forest s) = None ->
+    owf prev -> owf cur -> (forall p, In p (oold pv cur) -> In p (oelems prev)) ->
+    exists r',
+      apply_cs H s (net prev cur pv) = saved_state s r' /\
+      oelems r' = oelems cur /\ (working_version s <> 0 -> onot_new r').
+  Proof.
+    intros I NN E L Wp Wc Old. unfold apply_cs. rewrite NN.
+    destruct (apply_pairs_ok (net prev cur pv) s I) as (r' & E' & N' & AP).
+    - rewrite E. apply net_cs_ok; assumption.
+    - exact L.
+    - exists r'. split; [exact AP|]. split; [|exact N'].
+      rewrite E', E. apply apply_net; assumption.
+  Qed.
+
+  (** a change set that removes a key which is missing at that point is rejected *)
+  Theorem save_change_set_missing pre k post s :
+    state_inv s -> root_is_new s = false ->
+    cs_ok pre (oelems (root s)) ->
+    mem k (apply_changes pre (oelems (root s))) = false ->
+    exists s',
+      apply_cs H s (pre ++ CDel k :: post) = (s', XErr) /\
+      forest s' = forest s /\ version s' = version s /\
+      oelems (root s') = apply_changes pre (oelems (root s)).
+  Proof.
+    intros I NN OK M. unfold apply_cs. rewrite NN. apply apply_pairs_missing; assumption.
+  Qed.
+
+  (** uncommitted changes: refused, nothing happens *)
+  Theorem save_change_set_dirty s cs : root_is_new s = true -> apply_cs H s cs = (s, XErr).
+  Proof. intros E. unfold apply_cs. rewrite E. reflexivity. Qed.
+End SaveChangeSet.
+
+(** * 9. Replaying the net changes of versions 1..n into an empty tree *)
+
+(** the net changes of the consecutive trees [t; ts], the first one being version [j + 1] *)
+Fixpoint nets (j : Z) (t : option node) (ts : list (option node)) : list (list change) :=
+  match ts with
+  | [] => []
+  | t' :: r => net t t' j :: nets (j + 1) t' r
+  end.
+
+(** consecutive versions: well-formed, and a leaf not created in version [j + 1] is a leaf
+    of version [j] *)
+Fixpoint chain (j : Z) (t : option node) (ts : list (option node)) : Prop :=
+  match ts with
+  | [] => True
+  | t' :: r =>
+      owf t' /\ (forall p, In p (oold j t') -> In p (oelems t)) /\ chain (j + 1) t' r
+  end.
+
+Section Replay.
+  Variable H : bytes -> bytes.
+
+  Definition saved_out (o : out) (v : Z) : Prop := exists h, o = XPair (XBytes (Some h)) (XInt v).
+
+  Lemma replay_general ts : forall j t s,
+    0 <= j -> owf t -> chain j t ts ->
+    state_inv s -> init_set s = false -> version s = j -> root_is_new s = false ->
+    oelems (root s) = oelems t -> (forall w, j < w -> lookup w (forest s) = None) ->
+    let res := replay H s (nets j t ts) in
+    (forall i t', nth_error ts i = Some t' ->
+       exists r, lookup (j + 1 + Z.of_nat i) (forest (fst res)) = Some r /\ oelems r = oelems t') /\
+    (forall i t', nth_error ts i = Some t' ->
+       exists o, nth_error (snd res) i = Some o /\ saved_out o (j + 1 + Z.of_nat i)) /\
+    (forall w a, lookup w (forest s) = Some a -> lookup w (forest (fst res)) = Some a).
+  Proof.
+    induction ts as [|t' ts IH]; intros j t s Hj Wt Ch I IS V NN E Fr; cbn [nets replay].
+    - cbn [fst snd]. repeat split; auto; intros [|i] x Q; discriminate Q.
+    - cbn [chain] in Ch. destruct Ch as (Wt' & Old & Ch).
+      assert (WV : working_version s = j + 1).
+      { unfold working_version. rewrite IS, V, andb_false_r. reflexivity. }
+      assert (L : lookup (working_version s) (forest s) = None) by (rewrite WV; apply Fr; lia).
+      destruct (save_change_set_net H j t t' s I NN E L Wt Wt' Old) as (r' & AP & E' & N').
+      rewrite AP. unfold saved_state. rewrite WV.
+      set (s1 := MState r' (j + 1) r' (forest s ++ [(j + 1, r')]) (init_ver s) false (init_opt s)).
+      assert (I1 : state_inv s1).
+      { pose proof (apply_pairs_inv H (net t t' j) s I) as X.
+        unfold apply_cs in AP. rewrite NN in AP. rewrite AP in X. unfold saved_state in X.
+        rewrite WV in X. exact X. }
+      assert (Fr1 : forall w, j + 1 < w -> lookup w (forest s1) = None).
+      { intros w Hw. cbn [s1 forest]. rewrite lookup_app, Fr by lia. cbn [lookup].
+        replace (j + 1 =? w) with false by (symmetry; apply Z.eqb_neq; lia). reflexivity. }
+      assert (NN1 : root_is_new s1 = false).
+      { unfold root_is_new. cbn [s1 root]. specialize (N' ltac:(lia)).
+        destruct r'; cbn [onot_new] in N'; auto. }
+      specialize (IH (j + 1) t' s1 ltac:(lia) Wt' Ch I1 eq_refl eq_refl NN1 E' Fr1).
+      destruct (replay H s1 (nets (j + 1) t' ts)) as [s2 xs]. cbn [fst snd] in *.
+      destruct IH as (C & O & K).
+      assert (L1 : lookup (j + 1) (forest s1) = Some r').
+      { cbn [s1 forest]. rewrite lookup_snoc by (apply Fr; lia). rewrite Z.eqb_refl. reflexivity. }
+      split; [|split].
+      + intros [|i] x Q; cbn [nth_error] in Q.
+        * inversion Q; subst x. exists r'. split; [|exact E'].
+          replace (j + 1 + Z.of_nat 0) with (j + 1) by lia. apply K, L1.
+        * destruct (C i x Q) as (r & Lr & Er). exists r. split; [|exact Er].
+          replace (j + 1 + Z.of_nat (S i)) with (j + 1 + 1 + Z.of_nat i) by lia. exact Lr.
+      + intros [|i] x Q; cbn [nth_error] in Q |- *.
+        * eexists. split; [reflexivity|]. replace (j + 1 + Z.of_nat 0) with (j + 1) by lia.
+          eexists. reflexivity.
+        * destruct (O i x Q) as (o & No & So). exists o. split; [exact No|].
+          replace (j + 1 + Z.of_nat (S i)) with (j + 1 + 1 + Z.of_nat i) by lia. exact So.
+      + intros w a Lw. apply K. cbn [s1 forest]. rewrite lookup_app, Lw. reflexivity.
+  Qed.
+
+  (** ** Theorem 4 *)
+  Theorem replay_contents ts :
+    chain 0 None ts ->
+    let res := replay H (init_state 0 false) (nets 0 None ts) in
+    forall i t, nth_error ts i = Some t ->
+      (exists r, lookup (Z.of_nat i + 1) (forest (fst res)) = Some r /\ oelems r = oelems t) /\
+      (exists o, nth_error (snd res) i = Some o /\ saved_out o (Z.of_nat i + 1)).
+  Proof.
+    intros Ch res i t Q.
+    assert (I0 : state_inv (init_state 0 false)) by (apply state_inv_init; lia).
+    destruct (replay_general ts 0 None (init_state 0 false) ltac:(lia) Logic.I Ch I0
+                eq_refl eq_refl eq_refl eq_refl (fun w _ => eq_refl)) as (C & O & _).
+    replace (Z.of_nat i + 1) with (0 + 1 + Z.of_nat i) by lia.
+    split; [exact (C i t Q)|exact (O i t Q)].
+  Qed.
+End Replay.
+
+(** * 10. The fuel of [extract] always suffices *)
+Lemma main_loop_total pv cfuel fuel : forall pst cst shn nl,
+  (nodes_stack pst < fuel)%nat -> (nodes_stack cst < cfuel)%nat ->
+  exists cs, main_loop fuel cfuel pv pst cst shn nl = Some cs.
+Proof.
+  induction fuel as [|f IH]; intros pst cst shn nl Hf Hc; [lia|].
+  destruct pst as [|t st]; cbn [main_loop]; [eauto|].
+  cbn [nodes_stack fold_right] in Hf. fold (nodes_stack st) in Hf. pose proof (nodes_pos t) as Pt.
+  destruct (match shn with Some s => same_node t s | None => false end).
+  - cbn [ni_next].
+    destruct (adv_loop_spec pv cfuel cst [] Hc) as (cst' & shn' & nl' & EA & _ & _ & L).
+    rewrite EA. destruct (IH st cst' shn' nl') as (cs & E); try lia. rewrite E. cbn [option_map]. eauto.
+  - destruct t as [k v m|k h z m l r]; cbn [ni_next].
+    + destruct (add_orphan k nl) as [e nl'].
+      destruct (IH st cst shn nl') as (cs & E); try lia. rewrite E. cbn [option_map]. eauto.
+    + apply IH; [|exact Hc]. cbn [nodes_stack fold_right nodes] in *. fold (nodes_stack st). lia.
+Qed.
+
+Theorem extract_total pv prev cur : exists cs, extract pv prev cur = Some cs.
+Proof.
+  unfold extract.
+  assert (Nc : (nodes_stack (ni_new cur) < S (onodes cur))%nat).
+  { destruct cur; cbn [ni_new nodes_stack fold_right onodes]; lia. }
+  assert (Np : (nodes_stack (ni_new prev) < S (onodes prev))%nat).
+  { destruct prev; cbn [ni_new nodes_stack fold_right onodes]; lia. }
+  destruct (adv_loop_spec pv _ _ [] Nc) as (cst' & shn' & nl' & EA & _ & _ & L).
+  rewrite EA. apply main_loop_total; [exact Np|lia].
+Qed.
+
+(** * 11. Fragments of Theorem 2 with their hypotheses discharged *)
+
+(** all three tree-relating hypotheses, decidably *)
+Definition diff_hyps_b (pv : Z) (prev cur : option node) : bool :=
+  shared_in_prev_b pv prev cur && keys_identify_b prev cur && over_mono_b cur.
+
+Corollary extract_is_net_b pv prev cur :
+  owf prev -> owf cur -> diff_hyps_b pv prev cur = true ->
+  extract pv prev cur = Some (net prev cur pv).
+Proof.
+  intros Wp Wc Hb. unfold diff_hyps_b in Hb. apply andb_true_iff in Hb. destruct Hb as [Hb C].
+  apply andb_true_iff in Hb. destruct Hb as [A B].
+  apply extract_is_net; auto.
+  - apply over_mono_b_sound, C.
+  - apply shared_in_prev_b_sound, A.
+  - apply keys_identify_b_sound, B.
+Qed.
+
+(** the first version of a store (no predecessor, nothing can be shared): every leaf is listed *)
+Corollary extract_first_version pv cur :
+  owf cur -> (forall s, osubtree s cur -> pv < ver (nmeta s)) -> over_mono cur ->
+  extract pv None cur = Some (map cset (oelems cur)).
+Proof.
+  intros Wc New VM. rewrite extract_is_net; auto.
+  - f_equal. unfold net, dels_of. cbn [oelems map filter]. rewrite merge_nil_r. f_equal.
+    destruct cur as [c|]; [|reflexivity]. cbn [sets_of oelems].
+    assert (G : forall t, (forall s, subtree s t -> pv < ver (nmeta s)) -> new_leaves pv t = elems t).
+    { induction t as [k v m|k h z m l IHl r IHr]; intros N; cbn [new_leaves elems].
+      - specialize (N _ (subtree_refl _)). cbn [nmeta] in N.
+        replace (ver m <=? pv) with false by (symmetry; apply Z.leb_gt; exact N). reflexivity.
+      - rewrite IHl, IHr; auto; intros s S; apply N; cbn [subtree]; auto. }
+    apply G. exact New.
+  - exact Logic.I.
+  - intros s S V. specialize (New s S). lia.
+  - intros x y [].
+Qed.
+
+(** a version without writes (the same root): the empty change set *)
+Corollary extract_noop pv t :
+  owf t -> (forall s, osubtree s t -> ver (nmeta s) <= pv) -> over_mono t ->
+  (forall x y, osubtree x t -> osubtree y t -> nk x = nk y -> x = y) ->
+  extract pv t t = Some [].
+Proof.
+  intros W Old VM KI. rewrite extract_is_net; auto.
+  - f_equal. apply (ksorted_ext ckey); [apply net_sorted; auto|exact Logic.I|].
+    intros c. split; [|intros []]. intros I. destruct c as [k v|k].
+    + apply net_set_In in I. destruct t as [n|]; [|destruct I]. cbn [sets_of] in I.
+      rewrite ver_mono_old in I; [destruct I|exact VM|]. apply Old. apply subtree_refl.
+    + apply net_del_In, dels_In in I. tauto.
+  - intros s S _. exact S.
+Qed.
+
+(** * 12. Validation of the full statement on concrete histories, and a finding *)
+Module DiffExamples.
+  Definition Hid (b : bytes) : bytes := b.
+  Definition k (n : N) : bytes := [n].
+  Definition forest_of (ops : list op) := forest (fst (run Hid (init_state 0 false) ops)).
+  Definition tree_at (ops : list op) (v : Z) : option node :=
+    match lookup v (forest_of ops) with Some r => r | None => None end.
+
+  (** version 1: five keys.  Version 2: a key written several times, set-then-remove,
+      remove-then-set, an identical rewrite, a removal.  Version 3: nothing.  Version 4:
+      removals emptying the left subtree.  Version 5: inserts on both sides and a removal. *)
+  Definition ops1 : list op :=
+    [OSet (k 1) (k 10); OSet (k 2) (k 20); OSet (k 3) (k 30); OSet (k 4) (k 40); OSet (k 5) (k 50);
+     OSet (k 3) (k 31); OSave;
+     OSet (k 2) (k 20); ORemove (k 4); OSet (k 6) (k 60); OSet (k 6) (k 61); OSet (k 7) (k 70);
+     ORemove (k 7); ORemove (k 1); OSet (k 1) (k 11); OSave;
+     OSave;
+     ORemove (k 1); ORemove (k 2); ORemove (k 3); OSave;
+     OSet (k 0) (k 1); OSet (k 9) (k 1); OSet (k 8) (k 1); OSet (k 7) (k 1); ORemove (k 5); OSave].
+
+  Definition agree (ops : list op) (v : Z) : bool :=
+    let prev := tree_at ops (v - 1) in
+    let cur := tree_at ops v in
+    diff_hyps_b (v - 1) prev cur &&
+    match extract (v - 1) prev cur with
+    | Some cs => if list_eq_dec (fun a b : change => ltac:(decide equality; apply bytes_eq_dec)) cs (net prev cur (v - 1))
+                 then true else false
+    | None => false
+    end.
+
+  Example all_versions_agree : map (agree ops1) [1; 2; 3; 4; 5] = [true; true; true; true; true].
+  Proof. vm_compute. reflexivity. Qed.
+
+  Example version2_net :
+    net (tree_at ops1 1) (tree_at ops1 2) 1 =
+      [CSet (k 1) (k 11); CSet (k 2) (k 20); CDel (k 4); CSet (k 6) (k 61)].
+  Proof. vm_compute. reflexivity. Qed.
+  Example version3_net : net (tree_at ops1 2) (tree_at ops1 3) 2 = [].
+  Proof. vm_compute. reflexivity. Qed.
+  Example version4_net :
+    net (tree_at ops1 3) (tree_at ops1 4) 3 = [CDel (k 1); CDel (k 2); CDel (k 3)].
+  Proof. vm_compute. reflexivity. Qed.
+  Example version5_net :
+    net (tree_at ops1 4) (tree_at ops1 5) 4 =
+      [CSet (k 0) (k 1); CDel (k 5); CSet (k 7) (k 1); CSet (k 8) (k 1); CSet (k 9) (k 1)].
+  Proof. vm_compute. reflexivity. Qed.
+
+  (** a larger history: 24 keys, then scattered rewrites, removals and inserts *)
+  Definition ops2 : list op :=
+    map (fun n => OSet (k n) (k n)) [12;3;20;7;1;16;9;23;5;14;18;2;21;10;6;24;11;4;19;8;15;22;13;17]%N
+    ++ [OSave]
+    ++ [OSet (k 7) (k 70); ORemove (k 12); ORemove (k 13); OSet (k 30) (k 1); OSet (k 0) (k 1);
+        OSet (k 16) (k 16); ORemove (k 1); OSet (k 1) (k 2); OSet (k 25) (k 1); ORemove (k 25); OSave]
+    ++ [ORemove (k 20); ORemove (k 21); ORemove (k 22); ORemove (k 23); ORemove (k 24); ORemove (k 30);
+        OSet (k 2) (k 3); OSave].
+
+  Example all_versions_agree2 : map (agree ops2) [1; 2; 3] = [true; true; true].
+  Proof. vm_compute. reflexivity. Qed.
+
+  (** ** Finding: the first retained version after pruning.
+      [traverseStateChanges] replaces a missing predecessor root by the empty tree but keeps
+      [prevVersion = start - 1]; nodes of the first retained version that were created
+      earlier still count as shared, the walk of the current tree stops at the first of them
+      and the (empty) walk of the previous tree never resumes it.  The change set is then
+      neither the contents of the version nor the keys written in it: here version 2 writes
+      keys 1 and 5, and only key 1 is reported.  (Reproduced on the Go code: after
+      [DeleteVersionsTo(1)], [TraverseStateChanges] yields for version 2 only key 1.) *)
+  Definition ops3 : list op :=
+    [OSet (k 1) (k 10); OSet (k 2) (k 20); OSet (k 3) (k 30); OSet (k 4) (k 40); OSet (k 5) (k 50); OSave;
+     OSet (k 1) (k 11); OSet (k 5) (k 51); OSave;
+     OSet (k 3) (k 31); OSave].
+
+  Example unpruned_traverse :
+    traverse_state_changes (fst (run Hid (init_state 0 false) ops3)) 0 100 =
+      TOk [(1, [CSet (k 1) (k 10); CSet (k 2) (k 20); CSet (k 3) (k 30); CSet (k 4) (k 40); CSet (k 5) (k 50)]);
+           (2, [CSet (k 1) (k 11); CSet (k 5) (k 51)]);
+           (3, [CSet (k 3) (k 31)])].
+  Proof. vm_compute. reflexivity. Qed.
+
+  Theorem missing_predecessor_refuted :
+    exists (s : mstate) (cur : option node),
+      s = fst (run Hid (init_state 0 false) (ops3 ++ [OPrune 1])) /\
+      lookup 1 (forest s) = None /\ lookup 2 (forest s) = Some cur /\
+      traverse_state_changes s 0 100 =
+        TOk [(2, [CSet (k 1) (k 11)]); (3, [CSet (k 3) (k 31)])] /\
+      (* neither the contents of version 2 (a diff against the empty tree) ... *)
+      oelems cur = [(k 1, k 11); (k 2, k 20); (k 3, k 30); (k 4, k 40); (k 5, k 51)] /\
+      (* ... nor the keys written in version 2 *)
+      sets_of 1 cur = [(k 1, k 11); (k 5, k 51)].
+  Proof. eexists. eexists. vm_compute. repeat split; reflexivity. Qed.
+
+  (** the inclusive upper bound *)
+  Example end_version_inclusive :
+    traverse_state_changes (fst (run Hid (init_state 0 false) ops3)) 2 2 =
+      TOk [(2, [CSet (k 1) (k 11); CSet (k 5) (k 51)])].
+  Proof. vm_compute. reflexivity. Qed.
+End DiffExamples.
+
+(** * 13. One version of writes produces trees that satisfy the hypotheses of Theorem 2.
+    A working tree consists of new nodes on top of subtrees of the base version; stamping
+    gives the new nodes the new version and distinct nonces. *)
+Lemma subtree_trans a b c : subtree a b -> subtree b c -> subtree a c.
+Proof.
+  intros Sab. induction c as [k v m|k h z m l IHl r IHr]; intros S; cbn [subtree] in S;
+    destruct S as [->|S]; try exact Sab.
+  - destruct S.
+  - cbn [subtree]. right. destruct S as [S|S]; auto.
+Qed.
+
+Lemma ver_mono_sub s t : ver_mono t -> subtree s t -> ver_mono s.
+Proof.
+  induction t as [k v m|k h z m l IHl r IHr]; cbn [ver_mono subtree]; intros M [->|S]; auto.
+  - destruct S.
+  - destruct M as (_ & _ & Ml & Mr). destruct S as [S|S]; auto.
+Qed.
+
+Section WorkingTrees.
+  Variable base : node -> Prop.
+  Variable wv : Z.
+  Hypothesis B1 : forall s, base s -> 0 < ver (nmeta s) < wv.
+  Hypothesis B2 : forall s s2, base s -> subtree s2 s -> base s2.
+  Hypothesis B4 : forall s, base s -> ver_mono s.
+
+  (** new nodes on top of base subtrees *)
+  Fixpoint clean (t : node) : Prop :=
+    if is_new t then
+      match t with
+      | Leaf _ _ _ => True
+      | Inner _ _ _ _ l r => clean l /\ clean r
+      end
+    else base t.
+
+  Lemma base_not_new s : base s -> is_new s = false.
+  Proof. intros B. apply B1 in B. unfold is_new. apply Z.eqb_neq. lia. Qed.
+
+  Lemma clean_base s : base s -> clean s.
+  Proof. intros B. destruct s; cbn [clean]; rewrite (base_not_new _ B); exact B. Qed.
+
+  Lemma clean_children k h z m l r : clean (Inner k h z m l r) -> clean l /\ clean r.
+  Proof.
+    cbn [clean]. destruct (is_new (Inner k h z m l r)); [auto|]. intros B.
+    split; apply clean_base; apply (B2 _ _ B); cbn [subtree]; right;
+      [left|right]; apply subtree_refl.
+  Qed.
+
+  Lemma clean_new_inner k h z l r : clean l -> clean r -> clean (Inner k h z new_meta l r).
+  Proof. intros Cl Cr. cbn [clean]. change (is_new (Inner k h z new_meta l r)) with true. auto. Qed.
+
+  Lemma clean_mk k l r : clean l -> clean r -> clean (mk k l r).
+  Proof. apply clean_new_inner. Qed.
+
+  Lemma clean_new_leaf k v : clean (Leaf k v new_meta).
+  Proof. exact Logic.I. Qed.
+
+  Lemma clean_rotR t : clean t -> clean (rotR t).
+  Proof.
+    destruct t as [|k h z m l r]; [auto|]. destruct l as [|lk lh lz lm ll lr]; [auto|].
+    intros C. rewrite rotR_eq. destruct (clean_children _ _ _ _ _ _ C) as [Cl Cr].
+    destruct (clean_children _ _ _ _ _ _ Cl) as [Cll Clr].
+    apply clean_mk; [exact Cll|apply clean_mk; assumption].
+  Qed.
+  Lemma clean_rotL t : clean t -> clean (rotL t).
+  Proof.
+    destruct t as [|k h z m l r]; [auto|]. destruct r as [|rk rh rz rm rl rr]; [auto|].
+    intros C. rewrite rotL_eq. destruct (clean_children _ _ _ _ _ _ C) as [Cl Cr].
+    destruct (clean_children _ _ _ _ _ _ Cr) as [Crl Crr].
+    apply clean_mk; [apply clean_mk; assumption|exact Crr].
+  Qed.
+
+  Lemma clean_balance_mk k l r : clean l -> clean r -> clean (balance (mk k l r)).
+  Proof.
+    intros Cl Cr. rewrite balance_mk.
+    destruct (1 <? height l - height r).
+    - destruct (0 <=? bal_of l).
+      + apply clean_rotR, clean_mk; assumption.
+      + apply clean_rotR, clean_new_inner; [apply clean_rotL|]; assumption.
+    - destruct (height l - height r <? -1); [|apply clean_mk; assumption].
+      destruct (bal_of r <=? 0).
+      + apply clean_rotL, clean_mk; assumption.
+      + apply clean_rotL, clean_new_inner; [|apply clean_rotR]; assumption.
+  Qed.
+
+  Lemma clean_set t k v : clean t -> clean (fst (set t k v)).
+  Proof.
+    induction t as [lk lv m|nk h z m l IHl r IHr]; intros C.
+    - cbn [set]. destruct (bcmp k lk); cbn [fst].
+      + apply clean_new_leaf.
+      + apply clean_new_inner; [apply clean_new_leaf|exact C].
+      + apply clean_new_inner; [exact C|apply clean_new_leaf].
+    - destruct (clean_children _ _ _ _ _ _ C) as [Cl Cr]. cbn [set]. destruct (blt k nk).
+      + specialize (IHl Cl). destruct (set l k v) as [l' upd]. cbn [fst] in *.
+        destruct upd; cbn [fst]; [apply clean_new_inner|apply clean_balance_mk]; assumption.
+      + specialize (IHr Cr). destruct (set r k v) as [r' upd]. cbn [fst] in *.
+        destruct upd; cbn [fst]; [apply clean_new_inner|apply clean_balance_mk]; assumption.
+  Qed.
+
+  Lemma clean_remove t k :
+    clean t -> match rm_self (remove t k) with Some t' => clean t' | None => True end.
+  Proof.
+    induction t as [lk lv m|nk h z m l IHl r IHr]; intros C.
+    - cbn [remove]. destruct (beq k lk); cbn [rm_self]; auto.
+    - destruct (clean_children _ _ _ _ _ _ C) as [Cl Cr]. cbn [remove]. destruct (blt k nk).
+      + specialize (IHl Cl). destruct (rm_val (remove l k)); cbn [rm_self]; [|exact C].
+        destruct (rm_self (remove l k)) as [l'|]; cbn [rm_self]; [|exact Cr].
+        apply clean_balance_mk; assumption.
+      + specialize (IHr Cr). destruct (rm_val (remove r k)); cbn [rm_self]; [|exact C].
+        destruct (rm_self (remove r k)) as [r'|]; cbn [rm_self]; [|exact Cl].
+        apply clean_balance_mk; assumption.
+  Qed.
+
+  (** ** Stamping a clean tree *)
+  Variable H : bytes -> bytes.
+
+  Definition fresh (lo hi : Z) (s : node) : Prop :=
+    ver (nmeta s) = wv /\ lo < nonce (nmeta s) <= hi.
+
+  Lemma stamp_clean t : forall n,
+    clean t ->
+    let t' := fst (stamp H wv n t) in
+    let n' := snd (stamp H wv n t) in
+    n <= n' /\
+    (forall s, subtree s t' -> base s \/ fresh n n' s) /\
+    (forall x y, subtree x t' -> subtree y t' ->
+       ver (nmeta x) = wv -> ver (nmeta y) = wv -> nonce (nmeta x) = nonce (nmeta y) -> x = y) /\
+    ver_mono t' /\ ver (nmeta t') <= wv.
+  Proof.
+    induction t as [k v m|k h z m l IHl r IHr]; intros n C.
+    - rewrite stamp_leaf. cbn [clean] in C. destruct (is_new (Leaf k v m)) eqn:E; cbn [negb fst snd].
+      + split; [lia|]. split; [|split; [|split]].
+        * intros s [<-|[]]. right. unfold fresh. cbn [nmeta ver nonce]. lia.
+        * intros x y [<-|[]] [<-|[]] _ _ _. reflexivity.
+        * exact Logic.I.
+        * cbn [nmeta ver]. lia.
+      + split; [lia|]. split; [|split; [|split]].
+        * intros s S. left. exact (B2 _ _ C S).
+        * intros x y [<-|[]] [<-|[]] _ _ _. reflexivity.
+        * exact Logic.I.
+        * apply B1 in C. lia.
+    - rewrite stamp_inner. destruct (is_new (Inner k h z m l r)) eqn:E; cbn [negb].
+      + cbn [clean] in C. rewrite E in C. destruct C as [Cl Cr].
+        specialize (IHl (n + 1) Cl). destruct (stamp H wv (n + 1) l) as [l' n1].
+        specialize (IHr n1 Cr). destruct (stamp H wv n1 r) as [r' n2].
+        cbn [fst snd] in *.
+        destruct IHl as (Nl & Sl & Ul & Ml & Vl). destruct IHr as (Nr & Sr & Ur & Mr & Vr).
+        assert (Frl : forall s, subtree s l' -> ver (nmeta s) = wv -> n + 1 < nonce (nmeta s) <= n1).
+        { intros s S V. destruct (Sl s S) as [B|F]; [apply B1 in B; lia|apply F]. }
+        assert (Frr : forall s, subtree s r' -> ver (nmeta s) = wv -> n1 < nonce (nmeta s) <= n2).
+        { intros s S V. destruct (Sr s S) as [B|F]; [apply B1 in B; lia|apply F]. }
+        split; [lia|]. split; [|split; [|split]].
+        * intros s [<-|[S|S]].
+          -- right. unfold fresh. cbn [nmeta ver nonce]. lia.
+          -- destruct (Sl s S) as [B|[F1 F2]]; [left; exact B|right; unfold fresh; lia].
+          -- destruct (Sr s S) as [B|[F1 F2]]; [left; exact B|right; unfold fresh; lia].
+        * intros x y Sx Sy Vx Vy Nxy. cbn [subtree] in Sx, Sy.
+          destruct Sx as [<-|[Sx|Sx]]; destruct Sy as [<-|[Sy|Sy]]; auto;
+            cbn [nmeta nonce] in Nxy;
+            try (pose proof (Frl _ Sx Vx)); try (pose proof (Frr _ Sx Vx));
+            try (pose proof (Frl _ Sy Vy)); try (pose proof (Frr _ Sy Vy)); lia.
+        * cbn [ver_mono ver]. auto.
+        * cbn [nmeta ver]. lia.
+      + cbn [clean] in C. rewrite E in C. cbn [fst snd]. split; [lia|]. split; [|split; [|split]].
+        * intros s S. left. exact (B2 _ _ C S).
+        * intros x y Sx Sy Vx _ _. pose proof (B1 _ (B2 _ _ C Sx)). lia.
+        * apply B4, C.
+        * apply B1 in C. lia.
+  Qed.
+End WorkingTrees.
